@@ -4,7 +4,7 @@
 use super::Prop;
 use crate::ctx::{guard, show, unshow, CaseCtx, Ctx, Tier};
 use crate::gen;
-use bio::alphabets::{dna, rna, Alphabet, RankTransform};
+use bio::alphabets::{self, dna, protein, rna, Alphabet, RankTransform};
 use bio::seq_analysis::gc::{gc3_content, gc_content};
 use bio::seq_analysis::orf::{Finder, Orf};
 use serde_json::{json, Value};
@@ -439,9 +439,13 @@ fn check_alphabet(symbols: &[u8], cc: &mut CaseCtx) {
         let rt = RankTransform::new(&a);
         let ranks: Vec<u8> = sorted.iter().map(|&s| rt.get(s)).collect();
         let n_ranks = rt.ranks.len();
-        (a.len(), a.is_empty(), a.max_symbol(), single, a == b, ranks, n_ranks)
+        // the alphabet restored from the transform: equal to the original, same members
+        let back = rt.alphabet();
+        let back_ok = back == a && back.len() == a.len() && (0..=255u8).all(|c| back.is_word(&[c]) == a.is_word(&[c]));
+        let back_syms: Vec<usize> = back.symbols.iter().collect();
+        (a.len(), a.is_empty(), a.max_symbol(), single, a == b, ranks, n_ranks, back_ok, back_syms)
     });
-    let (len, empty, max, single, same, ranks, n_ranks) = match r {
+    let (len, empty, max, single, same, ranks, n_ranks, back_ok, back_syms) = match r {
         Ok(x) => x,
         Err(msg) => {
             cc.violation("C20/alphabet/panic", msg);
@@ -460,6 +464,12 @@ fn check_alphabet(symbols: &[u8], cc: &mut CaseCtx) {
     }
     if !same {
         cc.violation("C20/alphabet/insert-differs-from-new", "alphabet built by insert() is not equal to the one built by new()");
+    }
+    if !back_ok || back_syms != sorted.iter().map(|&c| c as usize).collect::<Vec<_>>() {
+        cc.violation(
+            "C20/rank-transform/alphabet-differs-from-original",
+            format!("RankTransform::new(&a).alphabet() has the symbols {:?}, a was built from {:?}", back_syms, sorted),
+        );
     }
     let exp: Vec<u8> = (0..sorted.len()).map(|i| i as u8).collect();
     if ranks != exp || n_ranks != sorted.len() {
@@ -516,6 +526,265 @@ fn alphabet_unit(tier: Tier, shard: usize, nshards: usize, ctx: &mut Ctx) {
                 |cc| check_alphabet(&symbols, cc),
             );
         }
+    }
+}
+
+// ------------------------------------------------------------------------------ set operations
+
+/// 256-bit set model
+type Set256 = [bool; 256];
+
+fn set_of(symbols: &[u8]) -> Set256 {
+    let mut s = [false; 256];
+    for &c in symbols {
+        s[c as usize] = true;
+    }
+    s
+}
+
+fn members(s: &Set256) -> Vec<u8> {
+    (0..=255u8).filter(|&c| s[c as usize]).collect()
+}
+
+/// what is observed of an alphabet returned by a set operation
+struct AlphaObs {
+    single: Vec<bool>,
+    symbols: Vec<usize>,
+    len: usize,
+    empty: bool,
+    max: Option<u8>,
+    eq_new: bool,
+    text_ok: bool,
+}
+
+/// one case = an ordered pair (A, B) of alphabets given by symbol lists: A.intersection(B),
+/// A.difference(B), A.union(B) against the 256-bit set model (the pair (B, A) is another case)
+fn check_setops(a_syms: &[u8], b_syms: &[u8], cc: &mut CaseCtx) {
+    let (sa, sb) = (set_of(a_syms), set_of(b_syms));
+    let both = (0..256).filter(|&i| sa[i] && sb[i]).count();
+    let only_a = (0..256).filter(|&i| sa[i] && !sb[i]).count();
+    let only_b = (0..256).filter(|&i| !sa[i] && sb[i]).count();
+    // the three results are pairwise different sets and none of them is an operand
+    cc.set_nontrivial(both > 0 && only_a > 0 && only_b > 0);
+    let mut hash = vec![];
+    for op in ["intersection", "difference", "union"] {
+        let mut want = [false; 256];
+        for i in 0..256 {
+            want[i] = match op {
+                "intersection" => sa[i] && sb[i],
+                "difference" => sa[i] && !sb[i],
+                _ => sa[i] || sb[i],
+            };
+        }
+        let wm = members(&want);
+        // a text made of all members is a word; with any non-member appended it is not
+        let r = guard(|| {
+            let a = Alphabet::new(a_syms);
+            let b = Alphabet::new(b_syms);
+            let (a0, b0) = (a.clone(), b.clone());
+            let res = match op {
+                "intersection" => a.intersection(&b),
+                "difference" => a.difference(&b),
+                _ => a.union(&b),
+            };
+            let operands_kept = a == a0 && b == b0;
+            let mut text_ok = res.is_word(&wm);
+            if let Some(x) = (0..=255u8).find(|&c| !want[c as usize]) {
+                let mut t = wm.clone();
+                t.push(x);
+                text_ok &= !res.is_word(&t);
+            }
+            (
+                AlphaObs {
+                    single: (0..=255u8).map(|c| res.is_word(&[c])).collect(),
+                    symbols: res.symbols.iter().collect(),
+                    len: res.len(),
+                    empty: res.is_empty(),
+                    max: res.max_symbol(),
+                    eq_new: res == Alphabet::new(&wm) && Alphabet::new(&wm) == res,
+                    text_ok,
+                },
+                operands_kept,
+            )
+        });
+        let (o, operands_kept) = match r {
+            Ok(x) => x,
+            Err(msg) => {
+                cc.violation(format!("C20/alphabet/{}/panic", op), msg);
+                continue;
+            }
+        };
+        hash.push((o.len, o.max));
+        let got_members: Vec<u8> = (0..=255u8).filter(|&c| o.single[c as usize]).collect();
+        if got_members != wm || !o.text_ok {
+            cc.violation(
+                format!("C20/alphabet/{}/wrong-members", op),
+                format!("is_word accepts the symbols {:?}, the {} of the two sets is {:?}", show(&got_members), op, show(&wm)),
+            );
+        }
+        if o.symbols != wm.iter().map(|&c| c as usize).collect::<Vec<_>>() {
+            cc.violation(
+                format!("C20/alphabet/{}/wrong-symbols", op),
+                format!("symbols = {:?}, the {} of the two sets is {:?}", o.symbols, op, wm),
+            );
+        }
+        if o.len != wm.len() || o.empty != wm.is_empty() {
+            cc.violation(
+                format!("C20/alphabet/{}/len-wrong", op),
+                format!("len = {}, is_empty = {}, the {} has {} symbols", o.len, o.empty, op, wm.len()),
+            );
+        }
+        if o.max != wm.last().cloned() {
+            cc.violation(
+                format!("C20/alphabet/{}/max_symbol-wrong", op),
+                format!("max_symbol = {:?}, expected {:?}", o.max, wm.last()),
+            );
+        }
+        if !o.eq_new {
+            cc.violation(
+                format!("C20/alphabet/{}/not-equal-to-new", op),
+                format!("the result is not equal to Alphabet::new({:?})", show(&wm)),
+            );
+        }
+        if !operands_kept {
+            cc.violation(format!("C20/alphabet/{}/operand-changed", op), "an operand compares different after the call");
+        }
+    }
+    cc.outcome(&hash);
+}
+
+fn setops_unit(tier: Tier, shard: usize, nshards: usize, ctx: &mut Ctx) {
+    let uni = alpha_universe(tier);
+    let subset = |mask: u32| -> Vec<u8> { (0..uni.len()).filter(|i| (mask >> i) & 1 == 1).map(|i| uni[i]).collect() };
+    for ma in 0u32..(1u32 << uni.len()) {
+        if ma as usize % nshards != shard {
+            continue;
+        }
+        let a = subset(ma);
+        for mb in 0u32..(1u32 << uni.len()) {
+            let b = subset(mb);
+            ctx.case(
+                || json!({"kind": "setops", "a": show(&a), "b": show(&b)}),
+                |cc| check_setops(&a, &b, cc),
+            );
+        }
+        if ctx.res.capped {
+            return;
+        }
+    }
+    // every ordered pair of the wide alphabets (symbol lists, so the two orders of all 256 bytes
+    // and the list with repeats are different descriptions of the operands)
+    let wide = wide_alphabets();
+    for (i, a) in wide.iter().enumerate() {
+        if i % nshards != shard {
+            continue;
+        }
+        for b in &wide {
+            ctx.case(
+                || json!({"kind": "setops", "a": show(a), "b": show(b)}),
+                |cc| check_setops(a, b, cc),
+            );
+        }
+    }
+}
+
+// ------------------------------------------------------------------------- predefined alphabets
+
+/// (name, constructor, required symbols in upper case (both cases are required), symbols whose
+/// membership is left open, complement under which the alphabet must be closed)
+struct Predefined {
+    name: &'static str,
+    make: fn() -> Alphabet,
+    /// listed as they are required (case-sensitive)
+    required: &'static [u8],
+    /// membership not demanded either way (letters that some tables add to the IUPAC codes)
+    open: &'static [u8],
+    /// both cases of an open letter must be treated alike (documented "uppercase and lowercase")
+    open_case_closed: bool,
+    complement: Option<fn(u8) -> u8>,
+}
+
+const PREDEFINED: &[Predefined] = &[
+    Predefined { name: "english-ascii-lower", make: alphabets::english_ascii_lower_alphabet, required: b"abcdefghijklmnopqrstuvwxyz", open: b"", open_case_closed: false, complement: None },
+    Predefined { name: "english-ascii-upper", make: alphabets::english_ascii_upper_alphabet, required: b"ABCDEFGHIJKLMNOPQRSTUVWXYZ", open: b"", open_case_closed: false, complement: None },
+    Predefined { name: "dna", make: dna::alphabet, required: b"ACGTacgt", open: b"", open_case_closed: true, complement: Some(dna::complement) },
+    Predefined { name: "dna-n", make: dna::n_alphabet, required: b"ACGTNacgtn", open: b"", open_case_closed: true, complement: Some(dna::complement) },
+    Predefined { name: "dna-iupac", make: dna::iupac_alphabet, required: b"ACGTRYSWKMBDHVNacgtryswkmbdhvn", open: b"Zz", open_case_closed: true, complement: Some(dna::complement) },
+    Predefined { name: "rna", make: rna::alphabet, required: b"ACGUacgu", open: b"", open_case_closed: true, complement: Some(rna::complement) },
+    Predefined { name: "rna-n", make: rna::n_alphabet, required: b"ACGUNacgun", open: b"", open_case_closed: true, complement: Some(rna::complement) },
+    Predefined { name: "rna-iupac", make: rna::iupac_alphabet, required: b"ACGURYSWKMBDHVNacguryswkmbdhvn", open: b"Zz", open_case_closed: true, complement: Some(rna::complement) },
+    Predefined { name: "protein", make: protein::alphabet, required: b"ARNDCEQGHILKMFPSTWYVarndceqghilkmfpstwyv", open: b"", open_case_closed: false, complement: None },
+    Predefined { name: "protein-iupac", make: protein::iupac_alphabet, required: b"ARNDCEQGHILKMFPSTWYVBZXarndceqghilkmfpstwyvbzx", open: b"JOUjou", open_case_closed: false, complement: None },
+];
+
+/// one case = one predefined alphabet: membership of all 256 single-byte texts against the symbol
+/// list of its documentation, len, closure under the DNA/RNA complement
+fn check_predefined(pd: &Predefined, cc: &mut CaseCtx) {
+    cc.set_nontrivial(true);
+    let r = guard(|| {
+        let a = (pd.make)();
+        let single: Vec<bool> = (0..=255u8).map(|c| a.is_word(&[c])).collect();
+        let image: Option<Vec<u8>> = pd.complement.map(|f| (0..=255u8).filter(|&c| single[c as usize]).map(f).collect());
+        (single, a.len(), a.is_word(pd.required), image)
+    });
+    let (single, len, req_word, image) = match r {
+        Ok(x) => x,
+        Err(msg) => {
+            cc.violation(format!("C20/predefined/{}/panic", pd.name), msg);
+            return;
+        }
+    };
+    let got: Vec<u8> = (0..=255u8).filter(|&c| single[c as usize]).collect();
+    cc.outcome(&got);
+    if let Some(&c) = pd.required.iter().find(|&&c| !single[c as usize]) {
+        cc.violation(
+            format!("C20/predefined/{}/missing-symbol", pd.name),
+            format!("'{}' is not accepted; members: {:?}", c as char, show(&got)),
+        );
+    } else if !req_word {
+        cc.violation(
+            format!("C20/predefined/{}/missing-symbol", pd.name),
+            format!("the text of all documented symbols {:?} is not a word", show(pd.required)),
+        );
+    }
+    if let Some(&c) = got.iter().find(|c| !pd.required.contains(c) && !pd.open.contains(c)) {
+        cc.violation(
+            format!("C20/predefined/{}/extra-symbol", pd.name),
+            format!("0x{:02x} ({:?}) is accepted; documented symbols: {:?}", c, show(&[c]), show(pd.required)),
+        );
+    }
+    if len != got.len() {
+        cc.violation(
+            format!("C20/predefined/{}/len-wrong", pd.name),
+            format!("len = {}, {} of the 256 single-byte texts are words", len, got.len()),
+        );
+    }
+    if pd.open_case_closed {
+        if let Some(&c) = pd.open.iter().find(|&&c| {
+            let o = if c.is_ascii_uppercase() { c.to_ascii_lowercase() } else { c.to_ascii_uppercase() };
+            single[c as usize] != single[o as usize]
+        }) {
+            cc.violation(
+                format!("C20/predefined/{}/case-not-closed", pd.name),
+                format!("only one case of '{}' is accepted", c as char),
+            );
+        }
+    }
+    if let Some(mut image) = image {
+        image.sort();
+        image.dedup();
+        if image != got {
+            cc.violation(
+                format!("C20/predefined/{}/not-closed-under-complement", pd.name),
+                format!("members {:?}, complements of the members {:?}", show(&got), show(&image)),
+            );
+        }
+    }
+}
+
+fn predefined_unit(ctx: &mut Ctx) {
+    for pd in PREDEFINED {
+        ctx.case(|| json!({"kind": "predefined", "name": pd.name}), |cc| check_predefined(pd, cc));
     }
 }
 
@@ -602,6 +871,7 @@ fn gc_unit(tier: Tier, shard: usize, nshards: usize, ctx: &mut Ctx) {
 const ORF_SHARDS: usize = 31; // coprime to the alphabet sizes 3, 4, 6, so strided shards get unbiased mixes
 const ALPHA_SHARDS: usize = 4;
 const GC_SHARDS: usize = 4;
+const SETOPS_SHARDS: usize = 2;
 
 fn codons(v: &Value) -> Vec<Codon> {
     v.as_array()
@@ -624,7 +894,7 @@ impl Prop for C20Prop {
         "exploration"
     }
     fn rule(&self) -> &'static str {
-        "ORF: one case = (sequence, start set, stop set, min_len), every sequence up to the length bound over the configuration's alphabet, plus every concatenation of up to T tokens of the prefix code {ATG,TGA,TAG,TAA,GGG,C} not already covered, disjoint start/stop sets; the reported list is compared with the definition (each start codon position paired with the first in-frame stop after it). Complement: one case per (DNA|RNA, byte) for ALL 256 bytes - complete, not bounded; revcomp: every string up to 4 (5) over representative bytes. Alphabets: one case per (subset of a byte universe incl. the empty one, text) for is_word/transform and one per subset (plus 12 wide alphabets incl. all 256 bytes) for len/is_empty/max_symbol/all 256 single-byte texts/rank bijection. GC: one case per sequence over {A,C,G,c,g,N,x}. All points of product spaces, enumerated once. Non-trivial: ORF - two required ORFs share a stop codon or lie in different reading frames; complement - the byte is an IUPAC nucleotide letter; revcomp - length >= 2 with a symbol that changes; is_word - non-empty text containing a member, and a non-member or an alphabet of >= 2 symbols; alphabet - >= 2 symbols; GC - both G/C and other symbols present."
+        "ORF: one case = (sequence, start set, stop set, min_len), every sequence up to the length bound over the configuration's alphabet, plus every concatenation of up to T tokens of the prefix code {ATG,TGA,TAG,TAA,GGG,C} not already covered, disjoint start/stop sets; the reported list is compared with the definition (each start codon position paired with the first in-frame stop after it). Complement: one case per (DNA|RNA, byte) for ALL 256 bytes - complete, not bounded; revcomp: every string up to 4 (5) over representative bytes. Alphabets: one case per (subset of a byte universe incl. the empty one, text) for is_word/transform and one per subset (plus 12 wide alphabets incl. all 256 bytes) for len/is_empty/max_symbol/all 256 single-byte texts/rank bijection. Set operations: one case per ordered pair (A, B) of subsets of the byte universe (and of the wide alphabets): intersection, difference and union against a 256-bit set model (all 256 single-byte texts, symbols, len, is_empty, max_symbol, equality with Alphabet::new of the model set); RankTransform::alphabet() must give back the alphabet in every alphabet case. Predefined alphabets: one case per constructor (english lower/upper, dna, dna+N, dna IUPAC, rna, rna+N, rna IUPAC, protein, protein IUPAC), all 256 single-byte texts against the documented symbol list, closure under the DNA/RNA complement. GC: one case per sequence over {A,C,G,c,g,N,x}. All points of product spaces, enumerated once. Non-trivial: ORF - two required ORFs share a stop codon or lie in different reading frames; complement - the byte is an IUPAC nucleotide letter; revcomp - length >= 2 with a symbol that changes; is_word - non-empty text containing a member, and a non-member or an alphabet of >= 2 symbols; alphabet - >= 2 symbols; set operations - A-B, B-A and the intersection are all non-empty; predefined - always; GC - both G/C and other symbols present."
     }
     fn assumptions(&self) -> Vec<&'static str> {
         vec![
@@ -635,6 +905,7 @@ impl Prop for C20Prop {
             "gc3_content counts positions 0,3,6,.. as in its documented example; fractions compared with tolerance 1e-6 (two different counts differ by >= 1/9)",
             "empty sequences are not passed to gc_content (0/0)",
             "RankTransform::get is only called for members (it documents a panic otherwise)",
+            "predefined alphabets: required symbols = the 4/5 bases, the 15 IUPAC nucleotide codes (T resp. U), the 20 amino acids, the 20 amino acids + B, Z, X, a-z, A-Z, each in both cases where the rustdoc says or shows so; membership of Z/z in the nucleotide IUPAC alphabets and of J, O, U (either case) in the protein IUPAC alphabet is left open (tables differ), but Z and z must be treated alike; every other byte must be rejected",
         ]
     }
     fn bounds(&self, tier: Tier) -> Value {
@@ -652,7 +923,10 @@ impl Prop for C20Prop {
                           "text_len": format!("0..={}", alpha_text_max(tier)),
                           "wide": "all 256 bytes (both orders), 0x80..=0xFF, even bytes, odd bytes, DNA, DNA+N, IUPAC DNA, protein, with repeats, {0xFF,0x00}",
                           "single_byte_texts": "all 256 for every alphabet"},
-            "gc": {"symbols": "A,C,G,c,g,N,x", "len": format!("1..={}", gc_max(tier))}
+            "gc": {"symbols": "A,C,G,c,g,N,x", "len": format!("1..={}", gc_max(tier))},
+            "setops": {"operands": "every ordered pair of subsets of the alphabets universe, every ordered pair of the 12 wide alphabets",
+                       "operations": "intersection, difference, union", "observed": "all 256 single-byte texts, symbols, len, is_empty, max_symbol, == Alphabet::new(model)"},
+            "predefined": {"alphabets": PREDEFINED.iter().map(|p| p.name).collect::<Vec<_>>(), "single_byte_texts": "all 256", "complete": true}
         })
     }
     fn units(&self, _tier: Tier) -> Vec<String> {
@@ -660,6 +934,8 @@ impl Prop for C20Prop {
         v.push("complement".into());
         v.extend((0..ALPHA_SHARDS).map(|i| format!("alphabet-{}", i)));
         v.extend((0..GC_SHARDS).map(|i| format!("gc-{}", i)));
+        v.extend((0..SETOPS_SHARDS).map(|i| format!("setops-{}", i)));
+        v.push("predefined".into());
         v
     }
     fn run_unit(&self, tier: Tier, unit: usize, ctx: &mut Ctx) {
@@ -678,7 +954,15 @@ impl Prop for C20Prop {
         }
         u -= ALPHA_SHARDS;
         if u < GC_SHARDS {
-            gc_unit(tier, u, GC_SHARDS, ctx);
+            return gc_unit(tier, u, GC_SHARDS, ctx);
+        }
+        u -= GC_SHARDS;
+        if u < SETOPS_SHARDS {
+            return setops_unit(tier, u, SETOPS_SHARDS, ctx);
+        }
+        u -= SETOPS_SHARDS;
+        if u == 0 {
+            predefined_unit(ctx);
         }
     }
     fn replay(&self, case: &Value, ctx: &mut Ctx) {
@@ -713,6 +997,16 @@ impl Prop for C20Prop {
             "gc" => {
                 let s = bytes("seq");
                 ctx.case(|| case.clone(), |cc| check_gc(&s, cc));
+            }
+            "setops" => {
+                let (a, b) = (bytes("a"), bytes("b"));
+                ctx.case(|| case.clone(), |cc| check_setops(&a, &b, cc));
+            }
+            "predefined" => {
+                let name = case["name"].as_str().unwrap_or("");
+                if let Some(pd) = PREDEFINED.iter().find(|p| p.name == name) {
+                    ctx.case(|| case.clone(), |cc| check_predefined(pd, cc));
+                }
             }
             _ => {}
         }
